@@ -40,6 +40,7 @@ import asyncio
 import hashlib
 import random
 import re
+import shutil
 import signal
 from datetime import datetime, timedelta, timezone
 from typing import Any, Callable, Iterable
@@ -49,7 +50,7 @@ from .. import loop as L
 from ..grammar import Resp
 from ..net import Conn, Result, Sched
 from ..runner import Check
-from ..servers import make_env
+from ..servers import make_env, scratch_root
 
 # ---------------------------------------------------------------------------
 # independent modified UTF-7 (RFC 3501 section 5.1.3)
@@ -445,6 +446,35 @@ def norm_result(r: Result, ren: Renamer) -> list[Any]:
 # ---------------------------------------------------------------------------
 
 _ENVS: list[Any] = []       # for the watchdog's cleanup
+
+
+class _Env:
+    """A fresh backend whose scratch tree (maildir) is owned here, so that it
+    is removed even when building the backend fails half way."""
+
+    def __init__(self) -> None:
+        self.env: Any = None
+        self.root: str | None = None
+
+    async def make(self, backend: str,
+                   users: dict[str, str] | None) -> Any:
+        _ENVS.append(self)
+        if backend == 'dict':
+            self.env = await make_env(backend, users or None)
+        else:
+            self.root = scratch_root()
+            self.env = await make_env(backend, dict(
+                {'testuser': 'testpass'}, **(users or {})), root=self.root)
+        return self.env
+
+    def cleanup(self) -> None:
+        if self.env is not None:
+            self.env.cleanup()
+        if self.root is not None:
+            shutil.rmtree(self.root, ignore_errors=True)
+            self.root = None
+        if self in _ENVS:
+            _ENVS.remove(self)
 DUMP_ATTRS = b'(UID FLAGS INTERNALDATE RFC822.SIZE BODY.PEEK[])'
 STATUS_ATTRS = b'(MESSAGES UIDNEXT UIDVALIDITY UNSEEN)'
 
@@ -553,9 +583,8 @@ async def run_once(fam: dict[str, Any], backend: str, kinds: list[str],
     follow-ups, dump."""
     random.seed(fam['seed'])
     users = dict(fam.get('users') or {})
-    env = await make_env(backend, users or None) if backend == 'dict' \
-        else await make_env(backend, dict({'testuser': 'testpass'}, **users))
-    _ENVS.append(env)
+    holder = _Env()
+    env = await holder.make(backend, users)
     rec: dict[str, Any] = {'result': None, 'dump': None, 'died': None,
                            'cond': None}
     ren = Renamer()
@@ -615,9 +644,7 @@ async def run_once(fam: dict[str, Any], backend: str, kinds: list[str],
             rec['died'] = rec['died'] or 'dump: %s' % exc
         return rec
     finally:
-        env.cleanup()
-        if env in _ENVS:
-            _ENVS.remove(env)
+        holder.cleanup()
 
 
 def first_diff(a: Any, b: Any, path: str = '') -> tuple[str, Any, Any] | None:
@@ -872,11 +899,17 @@ def gen_value(rng: random.Random, pos: str, backend: str) \
             v = rng.choice([b'a"b', b'a\\b', b'"', b'\\', b'\\"', b'x\\\\"y',
                             b'"q"', b'end\\', b'say "hi" \\ bye'])
             c = 'quote-backslash'
-        elif r < 0.58 and not mbox:
+        elif r < 0.62 and mbox:
+            if r < 0.58:
+                v = mutf7_encode(gen_unicode_name(rng, 16, backend))
+                c = 'mutf7'
+            else:
+                v, c = rng.choice([b'a&-b', b'&-&-', b'&-x']), 'amp-dash'
+        elif r < 0.58:
             v = rng.choice(['caf\u00e9', '\u00c5\u00c4\u00d6', '\u65e5\u672c\u8a9e',
                             'na\u00efve \U0001f600', '\u0416 x']).encode()
             c = '8bit-utf8'
-        elif r < 0.62 and not mbox:
+        elif r < 0.62:
             v, c = b'', 'empty'
         elif r < 0.70:
             v = rng.choice([b'abc{3}', b'abc {3+}', b'{3}', b'{0+}',
@@ -1334,8 +1367,8 @@ async def run_names(spec: dict[str, Any], counters: dict[str, int],
                     (backend == 'dict' or len(nm.encode()) < 120):
                 names.append(nm)
     random.seed(spec['seed'])
-    env = await make_env(backend)
-    _ENVS.append(env)
+    holder = _Env()
+    env = await holder.make(backend, None)
 
     def cnt(k: str, n: int = 1) -> None:
         counters[k] = counters.get(k, 0) + n
@@ -1439,9 +1472,7 @@ async def run_names(spec: dict[str, Any], counters: dict[str, int],
     except Died as exc:
         return 'other-property:names-%s' % str(exc)[:40]
     finally:
-        env.cleanup()
-        if env in _ENVS:
-            _ENVS.remove(env)
+        holder.cleanup()
     return None
 
 
@@ -1990,12 +2021,12 @@ class C18(Check):
               'class|mailbox:quote-backslash': 30,
               'class|mailbox:literal-lookalike': 30,
               'class|search:8bit-utf8': 5, 'class|login:8bit-utf8': 3}
-    time_cap = {'quick': 75.0, 'thorough': 900.0}
+    time_cap = {"quick": 120.0, "thorough": 1200.0}
 
     def cases(self, tier: str, seed: int) -> Iterable[dict[str, Any]]:
         quick = tier == 'quick'
         rng = random.Random(seed * 7919 + 18)
-        n_e2e = 1700 if quick else 1700 * 14
+        n_e2e = 1100 if quick else 1700 * 14
         n_names = 120 if quick else 120 * 14
         n_inproc = 8 if quick else 8 * 14      # per class
         names = [f[0] for f in FAMILIES]
